@@ -14,7 +14,7 @@ import (
 // function starts with an empty one. "Exactly once, in this order" is then a statement about trN and the arrays.
 type traceState struct{ last Term }
 
-var traceComps = []string{"X:trN", "X:trCallee", "X:trArg", "X:trRes", "X:trRes2"}
+var traceComps = []string{"X:trN", "X:trCallee", "X:trArg", "X:trRes", "X:trRes2", "X:trRes3"}
 
 func (e *Enc) traceSort(name string) string {
 	if name == "X:trN" {
@@ -27,10 +27,29 @@ func (e *Enc) usesTrace() bool {
 	for _, b := range e.fn.Blocks {
 		for _, ins := range b.Instrs {
 			if c, ok := ins.(ssa.CallInstruction); ok {
-				if ct, _ := e.calleeContract(c.Common()); ct != nil && ct.TracedArg != nil {
+				if ct, key := e.calleeContract(c.Common()); ct != nil && e.tracedHere(ct, key) {
 					return true
 				}
 			}
+		}
+	}
+	return false
+}
+
+// tracedHere: calls to the callee are recorded in this activation's trace.
+func (e *Enc) tracedHere(ct *Contract, key string) bool {
+	if ct == nil || ct.TracedArg == nil {
+		return false
+	}
+	if !ct.TracedOptIn {
+		return true
+	}
+	if e.c == nil {
+		return false
+	}
+	for _, t := range e.c.Traces {
+		if strings.HasSuffix(key, t) {
+			return true
 		}
 	}
 	return false
@@ -52,7 +71,7 @@ func (e *Enc) traceCallHook(st *State, c *ssa.CallCommon, key string, args []Val
 		return
 	}
 	ct := e.P.Spec.Contracts[key]
-	if ct == nil || ct.TracedArg == nil {
+	if !e.tracedHere(ct, key) {
 		return
 	}
 	v, _, err := sc.eval(ct.TracedArg)
@@ -76,7 +95,7 @@ func (e *Enc) traceAfter(st *State, key string, sc *SCtx) {
 		return
 	}
 	ct := e.P.Spec.Contracts[key]
-	if ct == nil || ct.TracedArg == nil || ct.TracedRes == nil {
+	if !e.tracedHere(ct, key) || ct.TracedRes == nil {
 		return
 	}
 	v, _, err := sc.eval(ct.TracedRes)
@@ -93,6 +112,14 @@ func (e *Enc) traceAfter(st *State, key string, sc *SCtx) {
 			return
 		}
 		st.heaps["X:trRes2"] = e.def("trr2", Store(e.comp(st, "X:trRes2", as), e.trace.last, e.asTerm(st, v2)))
+	}
+	if ct.TracedRes3 != nil {
+		v3, _, err := sc.eval(ct.TracedRes3)
+		if err != nil {
+			e.unsupported = "traced result of " + key + ": " + err.Error()
+			return
+		}
+		st.heaps["X:trRes3"] = e.def("trr3", Store(e.comp(st, "X:trRes3", as), e.trace.last, e.asTerm(st, v3)))
 	}
 }
 
@@ -156,7 +183,7 @@ func (sc *SCtx) traceBuiltin(x SCall) (Val, types.Type, bool, error) {
 			return Val{}, nil, true, err
 		}
 		return tv(Eq(Select(e.comp(sc.st, "X:trCallee", as), j.T), I(int64(funcID(key))))), types.Typ[types.Bool], true, nil
-	case "arg", "res", "res2":
+	case "arg", "res", "res2", "res3":
 		j, _, err := sc.eval(x.Args[0])
 		if err != nil {
 			return Val{}, nil, true, err
@@ -166,6 +193,8 @@ func (sc *SCtx) traceBuiltin(x SCall) (Val, types.Type, bool, error) {
 			name = "X:trRes"
 		} else if x.Fun == "res2" {
 			name = "X:trRes2"
+		} else if x.Fun == "res3" {
+			name = "X:trRes3"
 		}
 		return tv(Select(e.comp(sc.st, name, as), j.T)), nil, true, nil
 	case "childrenWalked", "knownNode":
